@@ -92,6 +92,14 @@ ADDENDA_3 = {
     "C15": " Fourth server identity (issued by the other CA, presented as its own full chain; 16 pairings); renewal also after a first client was built from the same paths; the server is built by Server::try_from(UserArgs) (hook H5).",
     "C17": " Topic B is also probed over the very connection whose publisher is blocked on topic A.",
 }
+ADDENDA_5 = {
+    "C01": " R scripts contain bursts of 100-400 items ready at once; at quiescence a live router must have drained every registered publisher stream. The pubsub-shutdown family (registration channel closed at a seeded step) runs for C01 too. Multi-topic: in a fifth of the runs a publisher that lays out its own frames sends a message whose frame payload is 0-100 bytes short of the frame limit, then a small one; both must arrive; a stream dropped on a loss-free network is a violation.",
+    "C02": " R scripts contain bursts of 100-300 requests; a third of the slow requestors write every request frame in two pieces split 1-12 bytes before its end.",
+    "C09": " Scripts contain bursts of 100-400 ready items (a router that bounds its work per step must arrange its own wake-up).",
+    "C10": " The reqrep-fail-random family (failing sinks, the rejected repliers' among them) runs for C10 too: the bound replier's traffic must be unaffected.",
+    "C11": " hostile-frames: a raw publisher hand-encodes a message whose frame payload is 0-40 bytes short of the limit while a library subscriber listens; the next message must still reach that subscriber.",
+    "C14": " invalid-payloads compares every yielded value with the message sent and interleaves valid messages whose compressed form lost its last 1-4 bytes (error or the message, nothing else; later payloads unaffected).",
+}
 ADDENDA = {
     "C02": " N part (slow-requestors): raw requestors behind 1 kB-1 MB stream windows burst requests at a library replier, stall, then read; each must receive exactly its own replies, once, intact, cid stripped.",
     "C03": " Also: truly empty items; 1-2 MB made of thousands of small messages under batch sizes up to 20000 (batches cut by encoded size); subscribers read during or only after publishing.",
@@ -117,7 +125,7 @@ def main():
         if pid not in CHECKS:
             continue
         cat, engine, technique, text, note, ref = CHECKS[pid]
-        text = text + ADDENDA.get(pid, "") + ADDENDA_3.get(pid, "")
+        text = text + ADDENDA.get(pid, "") + ADDENDA_3.get(pid, "") + ADDENDA_5.get(pid, "")
         engine = ENGINE_OVERRIDE.get(pid, engine)
         checks.append({
             "property_id": pid,
